@@ -296,24 +296,34 @@ class Unit:
                     t = ', w'
                 edits.append((pc, 0, [(t, ('gen', None, 0))]))
                 self.report['rewrites'].append({'rule': 'R4', 'file': repo_file, 'line': line(po), 'before': callee + '(..)', 'after': callee + '(.., w)'})
-        # regex rewrites inside the body are applied on segments between edits
-        edits.sort(key=lambda e: e[0])
+        # regex rewrites inside the body: computed on the original text, turned into replacement edits
+        body_src = src[bo:item.end]
+        for rule, count, rx, repl, origin in file_rewrites:
+            for mo in re.finditer(rx, body_src, flags=re.S):
+                newt = mo.expand(repl)
+                missing = mo.group(0).count('\n') - newt.count('\n')
+                if missing < 0:
+                    raise LostAnchor('rewrite %s adds lines' % rule)
+                a0 = bo + mo.start()
+                edits.append((a0, mo.end() - mo.start(), [(newt + '\n' * missing, ('repo', repo_file, line(a0)))]))
+                self.report['rewrites'].append({'rule': rule, 'file': repo_file, 'line': line(a0), 'before': mo.group(0), 'after': newt})
+        edits.sort(key=lambda e: (e[0], e[1]))
+        # an insertion strictly inside a replaced region cannot be honoured
+        for i, (off, dl, ins) in enumerate(edits):
+            if dl > 0:
+                for off2, dl2, _ in edits:
+                    if off < off2 < off + dl:
+                        # move the inner insertion to the end of the replaced region
+                        raise LostAnchor('%s: a contract insertion falls inside rewritten text at line %d' % (disp, line(off2)))
         pos = bo
-        segs = []
         for off, dl, ins in edits:
-            segs.append(('src', pos, off))
-            segs.append(('ins', ins))
+            if off < pos:
+                raise LostAnchor('%s: overlapping edits at line %d' % (disp, line(off)))
+            em.emit(src[pos:off], ('repo', repo_file, line(pos)))
+            for t, o in ins:
+                em.emit(t, o)
             pos = off + dl
-        segs.append(('src', pos, item.end))
-        for s in segs:
-            if s[0] == 'src':
-                a, b = s[1], s[2]
-                text = src[a:b]
-                text = self._apply_rewrites(text, file_rewrites, repo_file, line(a))
-                em.emit(text, ('repo', repo_file, line(a)))
-            else:
-                for t, o in s[1]:
-                    em.emit(t, o)
+        em.emit(src[pos:item.end], ('repo', repo_file, line(pos)))
         G('\n')
         em.mark(('fn_end', disp, mode))
         self.report['functions_verified'].append(info)
@@ -510,6 +520,8 @@ class Unit:
                 G(''.join(l + '\n' for l in mod_prelude.split('\n') if l and me not in l))
                 emit_node(sub, depth + 1, path + (name,))
                 G('} // mod %s\n' % name)
+        if tree.get('files'):
+            G(''.join(l + '\n' for l in mod_prelude.split('\n') if l and 'use vstd::prelude' not in l and 'use crate::{' not in l))
         emit_node(tree, 0)
         if getattr(self, 'canary', False):
             G('pub mod canary {\n    use vstd::prelude::*;\n')
